@@ -10,7 +10,7 @@
 From Coq Require Import List Bool Arith Ascii String NArith Permutation Sorted.
 From UV.Base Require Import Order SortUniq Res.
 From UV.Py Require Import PyStr.
-From UV.Schemes Require Import Common Generic LegacyOpenssl Gentoo GentooProofs Debian DebianProofs Semver SemverProofs Gem GemProofs Rpm RpmProofs.
+From UV.Schemes Require Import Common Generic LegacyOpenssl Gentoo GentooProofs Debian DebianProofs Semver SemverProofs Gem GemProofs Rpm RpmProofs Arch ArchProofs.
 Import ListNotations.
 
 (* the laws, for any comparison that is a total preorder: < is cmp = Lt, > is cmp = Gt *)
@@ -85,6 +85,11 @@ Theorem C01_rpm :
   TPO rpm_order /\ forall a b, rpm_compare a b = rpm_order a b /\ rpm_ops a b = ops_of (rpm_order a b).
 Proof. split; [exact rpm_tpo|]. intros a b. split; [apply rpm_compare_order|apply rpm_ops_spec]. Qed.
 
+(* alpm: a total preorder within each of the two classes the property keeps (all with, or all without, a pkgrel) *)
+Theorem C01_alpm :
+  TPO arch_order /\ forall a b, has_rel a = has_rel b -> arch_cmp a b = arch_order a b.
+Proof. split; [exact arch_order_tpo|exact arch_cmp_order]. Qed.
+
 (* Non-vacuity: accepted versions have the shape the theorems need, and the orders are not trivial *)
 Example C01_nonvacuous :
   gok (list_ascii_of_string "1.02_alpha1_p-r3") = true /\
@@ -106,3 +111,4 @@ Print Assumptions C01_deb.
 Print Assumptions C01_semver_family.
 Print Assumptions C01_gem.
 Print Assumptions C01_rpm.
+Print Assumptions C01_alpm.
